@@ -86,16 +86,16 @@ type Event struct {
 
 // Interp runs one program.
 type Interp struct {
-	Events   []string
-	Inputs   []string
-	inPos    int
-	funcs    map[string]*gen.FuncDef
-	handlers map[string]*gen.Handler
-	global   *scope
-	cur      *scope
-	tests    int
-	fails    []string
-	FailFast bool
+	Events    []string
+	Inputs    []string
+	inPos     int
+	funcs     map[string]*gen.FuncDef
+	handlers  map[string]*gen.Handler
+	global    *scope
+	cur       *scope
+	tests     int
+	fails     []string
+	FailFast  bool
 	NoSummary bool
 	// Steps bounds the evaluation (guard against generator bugs); exceeding it ends the run with
 	// class "ref-budget".
@@ -103,8 +103,8 @@ type Interp struct {
 	MaxSteps int
 	// Unknown is set when the program did something whose result the documents leave open
 	// (see Widenings); the case is then not judged.
-	Unknown string
-	depth   int
+	Unknown     string
+	depth       int
 	summaryDone bool
 }
 
